@@ -30,7 +30,7 @@ func init() {
 		Real:           []string{"ArchiveHandler, addFile, addPubKeyFile, rate limiter", "all write paths used by the bursts", "rotation loop"},
 		Stub:           []string{"socket listeners"},
 		Assumptions:    []string{"one write call is atomic with respect to a concurrent read of the same file (README, File Writing and Archiving): bursts are injected between files, not inside a write"},
-		RequiredProbes: []string{"c14.burst.new-device", "c14.burst.registration", "c14.burst.rotation", "c14.burst.reports", "c14.rate-limited", "c14.archive-ok", "c14.overlapping-requests", "c14.paired-requests"},
+		RequiredProbes: []string{"c14.burst.new-device", "c14.burst.registration", "c14.burst.rotation", "c14.burst.reports", "c14.rate-limited", "c14.archive-ok", "c14.overlapping-requests", "c14.paired-requests", "c14.staggered-requests", "c14.window-edge-request"},
 		RequiredSites:  []string{"archive.file", "archive.pubkey"},
 	})
 }
@@ -143,8 +143,85 @@ func runC14(m *Sim) {
 		}
 	}
 	consts := server.VerifConsts()
+	collect := func(res *HTTPResult) {
+		if res.Panic != nil {
+			m.Fail("C14.panic", "archive", "archive handler panicked: %v\n%s", res.Panic, firstRepoFrames(res.Stack))
+		}
+		m.Sig = append(m.Sig, fmt.Sprintf("a:%d", res.Status))
+		switch res.Status {
+		case 200:
+			at, ok := admittedAt[res]
+			if !ok {
+				panic("harness: no admission time recorded for a served archive request")
+			}
+			oks = append(oks, c14Reply{at: at, body: res.Body})
+			m.Probe("c14.archive-ok")
+		case 429:
+			m.Probe("c14.rate-limited")
+		}
+	}
+	// staggered: two requests admitted at different instants and both in flight
+	// (each parked in front of its first file), then finished one after the
+	// other in a seeded order with a write burst between them; optionally
+	// followed by limit-1 immediate requests and one placed between the instants
+	// at which the two admissions leave the rate window - whichever of the two
+	// the limiter still remembers decides that request.
+	staggered := func() {
+		gap := time.Duration(1+m.C.Int("stagger-ms", 40)) * time.Millisecond
+		m.S.Hold(n.Name + ":archive.file")
+		resA, resB := &HTTPResult{}, &HTTPResult{}
+		tA := archiveAsync("archive-older", resA)
+		w.Settle()
+		w.Advance(gap)
+		h.AfterRotations()
+		tB := archiveAsync("archive-younger", resB)
+		w.Settle()
+		first, second := tA, tB
+		if m.C.Chance("younger-first", 1, 3) {
+			first, second = tB, tA
+		}
+		m.S.Hold(second.Name)
+		m.S.Unhold(n.Name + ":archive.file")
+		w.Finish(first)
+		if !n.Model.Registered && m.C.Chance("registration-between", 2, 3) {
+			n.DoRegister(h.GCA.Pub, n.Temp)
+			d := h.NewDevice(1000)
+			n.DoDatagram(SignedReport(d.Key, d.ID, Slot(), 600).Encode())
+			m.Probe("c14.burst.registration")
+		}
+		m.S.Unhold(second.Name)
+		w.Finish(second)
+		collect(resA)
+		collect(resB)
+		m.Probe("c14.staggered-requests")
+		if !m.C.Chance("window-edge-tail", 1, 2) {
+			return
+		}
+		for k := 0; k < consts.ArchiveLimit-1; k++ {
+			res := &HTTPResult{}
+			w.Finish(archiveAsync("archive-tail", res))
+			collect(res)
+		}
+		at, okA := admittedAt[resA]
+		if !okA {
+			return
+		}
+		target := at + consts.ArchiveRate + time.Duration(m.C.Int("edge-ms", int(gap/time.Millisecond)+2))*time.Millisecond
+		if now := time.Since(m.Start); target > now {
+			w.Advance(target - now)
+			h.AfterRotations()
+		}
+		res := &HTTPResult{}
+		w.Finish(archiveAsync("archive-edge", res))
+		collect(res)
+		m.Probe("c14.window-edge-request")
+	}
 	narch := 3 + m.C.Int("archives", 8)
 	for i := 0; i < narch; i++ {
+		if m.C.Chance("staggered", 1, 4) {
+			staggered()
+			continue
+		}
 		// Seeded pacing: tight loops at one instant, or spread out.
 		switch m.C.Weighted("pace", 2, 2, 3) {
 		case 0:
